@@ -59,7 +59,7 @@ func HostileCount() *rapid.Generator[uint64] {
 	return rapid.Custom(func(t *rapid.T) uint64 {
 		switch rapid.IntRange(0, 4).Draw(t, "hckind") {
 		case 0, 1, 2:
-			return rapid.SampledFrom(hostileCounts).Draw(t, "hcedge")
+			return hostileCounts[UniformIndex(t, len(hostileCounts), "hcedge")]
 		case 3:
 			return uint64(rapid.IntRange(0, 300).Draw(t, "hcsmall"))
 		default:
@@ -214,4 +214,21 @@ func Text(max int) *rapid.Generator[string] {
 			return rapid.StringOfN(rapid.RuneFrom([]rune("abcdefghijklmnopqrstuvwxyzABCXYZ0123456789-_.:/ ")), 1, max, -1).Draw(t, "txt")
 		}
 	})
+}
+
+// UniformIndex draws an index in [0, n) uniformly.  rapid's integer and
+// SampledFrom generators are deliberately biased towards small values and
+// bounds, which starves the middle of a long table; single bits are unbiased.
+func UniformIndex(t *rapid.T, n int, label string) int {
+	if n <= 1 {
+		return 0
+	}
+	v := 0
+	for _, b := range rapid.SliceOfN(rapid.Bool(), 20, 20).Draw(t, label) {
+		v <<= 1
+		if b {
+			v |= 1
+		}
+	}
+	return v % n
 }
